@@ -21,9 +21,9 @@ VARIANTS = {
     'table-join-model': 'select * from int1.t1 as t join mindsdb.pred as m where {W}',
     'model-join-table': 'select * from mindsdb.pred as m join int1.t1 as t where {W}',
     'on-columns-map': 'select * from int1.t1 as t join mindsdb.pred as m on t.a = m.k where {W}',
-    'using': 'select * from int1.t1 as t join mindsdb.pred as m where {W} using Opt1 = 1, m.opt2 = \'x\'',
+    'using': 'select * from int1.t1 as t join mindsdb.pred as m where {W} using Opt1 = 1, m.opt2 = \'x\', M.Opt3 = 2',
     # option names that contain dots themselves, addressed to the model by its alias (the alias is the FIRST part only)
-    'using-dotted-keys': 'select * from int1.t1 as t join mindsdb.pred as m where {W} using Opt1 = 1, m.opt2 = \'x\', '
+    'using-dotted-keys': 'select * from int1.t1 as t join mindsdb.pred as m where {W} using Opt1 = 1, m.opt2 = \'x\', M.Opt3 = 2, '
                          'm.engine.mode = \'fast\', m.A.b.c.d = 2, m.m.m = 3',
     'two-tables': 'select * from int1.t1 as t join int2.t2 as u on t.a = u.a join mindsdb.pred as m where {W}',
     # names that collide: the table's alias is the model's real name; another table's real name is the model's alias
@@ -46,7 +46,7 @@ VARIANTS = {
     'target-given-as-list': 'select * from int1.t1 as t join proj.pred4 as m where {W}',
     # the same under a catalog given in the legacy dict form {model name: record} (another branch of the planner's constructor)
     'legacy-catalog:table-join-model': 'select * from int1.t1 as t join mindsdb.pred as m where {W}',
-    'legacy-catalog:using': 'select * from int1.t1 as t join mindsdb.pred as m where {W} using Opt1 = 1, m.opt2 = \'x\'',
+    'legacy-catalog:using': 'select * from int1.t1 as t join mindsdb.pred as m where {W} using Opt1 = 1, m.opt2 = \'x\', M.Opt3 = 2',
     'legacy-catalog:target-given-as-string': 'select * from int1.t1 as t join proj.pred3 as m where {W}',
     'legacy-catalog:target-given-as-list': 'select * from int1.t1 as t join proj.pred4 as m where {W}',
     'model-between-tables': 'select * from int1.t1 as t join mindsdb.pred as m join int2.t2 as u on u.a = t.a '
@@ -239,8 +239,85 @@ def _case(args):
     return out
 
 
+ON_ATOMS = {0: 't.a = u.a', 6: 'u.c = 1', 7: 'u.c > 2'}
+ON_KIND = {'inner': 'join', 'left': 'left join', 'right': 'right join', 'full': 'full join'}
+ON_TAILS = {'then-model': ' join mindsdb.pred as m', 'no-model': '', 'then-model-where': ' join mindsdb.pred as m where m.x = 5 and t.b = 1'}
+
+
+def render_on(w):
+    k = w['k']
+    if k == 'atom':
+        return ON_ATOMS[w['id']]
+    if k == 'not':
+        return 'not (%s)' % render_on(w['a'])
+    return '(%s %s %s)' % (render_on(w['a']), k, render_on(w['b']))
+
+
+def _on_case(args):
+    kind, on, tail = args
+    from mindsdb_sql import parse_sql
+    from mindsdb_sql.planner import plan_query
+    from mindsdb_sql.exceptions import PlanningException
+    sql = 'select * from int1.t1 as t %s int2.t2 as u on %s%s' % (ON_KIND[kind], render_on(on), ON_TAILS[tail])
+    out = {'sql': sql, 'variant': 'on-clause:%s:%s' % (kind, tail)}
+    try:
+        plan = plan_query(parse_sql(sql, 'mindsdb'), **plancorpus.catalog('dicts'))
+    except (PlanningException, NotImplementedError):
+        out['status'] = 'refused'
+        return out
+    except Exception as e:   # noqa
+        out['status'] = 'internal:' + type(e).__name__
+        return out
+    pushed, unknown, semi = [], 0, False
+    n_fetch_u = 0
+    for s_ in plan.steps:
+        if type(s_).__name__ != 'FetchDataframeStep' or str(s_.integration).lower() != 'int2':
+            continue
+        n_fetch_u += 1
+        for c in conjuncts(getattr(s_.query, 'where', None)):
+            nm = type(c).__name__
+            if nm == 'BinaryOperation' and str(c.op).lower() == 'in' and type(c.args[1]).__name__ == 'Parameter':
+                # the restriction must be on u's join column, fed by the DISTINCT values of t's join column
+                ok = False
+                try:
+                    sub = plan.steps[int(c.args[1].value.step_num)]
+                    src = plan.steps[int(sub.dataframe.step_num)]
+                    ok = (str(c.args[0].parts[-1]).lower() == 'a' and str(sub.query.targets[0].parts[-1]).lower() == 'a'
+                          and bool(sub.query.distinct) and str(src.integration).lower() == 'int1')
+                except Exception:   # noqa
+                    ok = False
+                if ok:
+                    semi = True
+                else:
+                    unknown += 1
+                continue
+            hit = None
+            if nm == 'BinaryOperation' and len(c.args) == 2 and type(c.args[0]).__name__ == 'Identifier' and type(c.args[1]).__name__ == 'Constant':
+                col, op, val = str(c.args[0].parts[-1]).lower(), str(c.op).lower(), c.args[1].value
+                hit = 6 if (col, op, val) == ('c', '=', 1) else (7 if (col, op, val) == ('c', '>', 2) else None)
+            if hit is None:
+                unknown += 1
+            else:
+                pushed.append(hit)
+    out['status'] = 'ok' if n_fetch_u == 1 else 'fetches-of-u:%d' % n_fetch_u
+    out['x'] = {'on': on, 'kind': kind, 'pushed': pushed, 'semijoin': semi, 'unknownpush': unknown}
+    out['fetch_sql'] = [str(s_.query) for s_ in plan.steps if type(s_).__name__ == 'FetchDataframeStep']
+    out['kinds'] = [type(s_).__name__ for s_ in plan.steps]
+    return out
+
+
 def run(ctx):
     thorough = ctx.tier == 'thorough'
+    # ---- ON clauses: every tree of depth <= 2 over the join equality and two comparisons of the joined table x 4 join kinds
+    go = ctx.tlc('ModelJoinOnGen', name='modeljoin_on_gen')
+    if go.violated or not go.ok:
+        raise MachineryError('ModelJoinOnGen: %s %s' % (go.violated, go.errors[:2]))
+    ons = [(v[1], v[2]) for v in find_prints(go.out, 'ON')]
+    if len(ons) != go.distinct:
+        raise MachineryError('ModelJoinOnGen: parsed %d of %d' % (len(ons), go.distinct))
+    ons.sort(key=lambda t: json.dumps(t, sort_keys=True))
+    on_work = [(k_, on_, tl_) for i_, (k_, on_) in enumerate(ons) for tl_ in (list(ON_TAILS) if thorough else [list(ON_TAILS)[i_ % 3]])]
+    on_res = pmap(_on_case, on_work, chunksize=32)
     g = ctx.tlc('ModelJoinGen', name='modeljoin_gen')
     if g.violated or not g.ok:
         raise MachineryError('ModelJoinGen: %s %s' % (g.violated, g.errors[:2]))
@@ -268,6 +345,19 @@ def run(ctx):
         elif st == 'ok':
             traces.append(r['x'])
             meta.append(r)
+    on_status = {}
+    for r in on_res:
+        st = r['status'].split(':')[0]
+        on_status[st] = on_status.get(st, 0) + 1
+        if st == 'internal':
+            ctx.violation('planning-internal-error:%s' % r['status'], 'planning a join with a composite ON clause failed internally',
+                          {'sql': r['sql']}, pin=(r['sql'], r['status']))
+        elif st == 'ok':
+            traces.append(r['x'])
+            meta.append(r)
+    ctx.cov['on_clause_cases'] = {'trees_x_kinds': len(ons), 'planned': on_status}
+    if not on_status.get('ok'):
+        raise MachineryError('no join with a composite ON clause could be planned')
     path = ctx.work / 'mjtraces.json'
     dump_json(path, traces)
     tr = ctx.tlc('ModelJoinTrace', env={'VERIF_TRACES': path}, name='modeljoin_trace', timeout=3000)
@@ -281,7 +371,11 @@ def run(ctx):
         for flag in ver[i + 1]:
             ctx.violation('%s:%s' % (flag, r['variant']), 'table-model join: %s' % flag,
                           {'sql': r['sql'], 'fetch': r.get('fetch_sql'), 'facts': r['x'], 'steps': r['kinds']}, pin=(key, flag))
+        if r['variant'].startswith('on-clause:'):
+            continue
         v = r['variant']
+        if v.startswith('on-clause:'):
+            continue
         if r['n_apply'] != 1:
             ctx.violation('apply-steps:%d:%s' % (r['n_apply'], v), 'not exactly one apply-predictor step per model reference',
                           {'sql': r['sql'], 'steps': r['kinds']}, pin=(key, r['n_apply']))
@@ -290,7 +384,7 @@ def run(ctx):
             ctx.violation('model-input:%s' % v, 'the model is not applied to the result of the data it is joined to',
                           {'sql': r['sql'], 'steps': r['kinds'], 'dataframe': r.get('dataframe')}, pin=(key, r.get('dataframe_kind')))
         if v in ('using', 'using-dotted-keys', 'legacy-catalog:using'):
-            want = {'opt1': 1, 'opt2': 'x'}
+            want = {'opt1': 1, 'opt2': 'x', 'opt3': 2}
             if v == 'using-dotted-keys':
                 want.update({'engine.mode': 'fast', 'a.b.c.d': 2, 'm.m': 3})
             got = {k_.lower(): v_ for k_, v_ in (r.get('params') or {}).items()}
